@@ -242,18 +242,39 @@ def case_declared_dtype(ctx, s: Subject):
         if total is None:
             return
         op = rng.choice(["with_flat", "with_flat_existing", "nest_setitem_other_type", "nest_setitem_chunked", "without",
-                         "frame_setitem", "with_list", "eval_assign"])
+                         "frame_setitem", "with_list", "eval_assign", "assign_whole_other_dtype", "assign_whole_frame_loc"])
+        prev = cur
         t = rng.choice(gen.TYNAMES)
         cells = [gen.rand_cell(rng, t) for _ in range(total)]
         arr = gen.flat_array(cells, t)
         hist.append({"op": op, "ty": t})
         try:
-            if op == "with_flat":
+            if op in ("assign_whole_other_dtype", "assign_whole_frame_loc"):
+                # whole-column in-place assignment of nested values of ANOTHER nested dtype (fields reversed, or one
+                # field's element type changed): cast to the column's own dtype or refused — never stored as they are
+                fs = list(cur.nest.fields)
+                other = cur.nest[fs[::-1]] if (len(fs) > 1 and rng.random() < 0.5) else cur.nest.with_flat_field(fs[0], arr)
+                tgt = cur.copy()
+                _ = tgt.dtype, tgt.dtypes      # a user has looked at the dtype before (pandas caches it per block)
+                if op == "assign_whole_other_dtype":
+                    if rng.random() < 0.5:
+                        tgt[:] = other.array
+                    else:
+                        tgt.iloc[:] = other
+                    cur = tgt
+                else:
+                    nf = NestedFrame({"k": np.arange(len(tgt))}, index=tgt.index)
+                    nf["nest"] = tgt
+                    _ = nf.dtypes, nf["nest"].dtype
+                    nf.loc[:, "nest"] = other
+                    cur = nf["nest"]
+            elif op == "with_flat":
                 cur = cur.nest.with_flat_field("z", arr)
             elif op == "with_flat_existing":
                 cur = cur.nest.with_flat_field(rng.choice(list(cur.nest.fields)), arr)
             elif op == "nest_setitem_other_type":
                 cur = cur.copy()
+                _ = cur.dtype
                 cur.nest[rng.choice(list(cur.nest.fields))] = arr      # keeps the dtype or raises
             elif op == "nest_setitem_chunked":
                 cur = pd.concat([cur.iloc[:len(cur) // 2], cur.iloc[len(cur) // 2:]])
@@ -287,3 +308,6 @@ def case_declared_dtype(ctx, s: Subject):
         except Exception as e:  # noqa: BLE001  (a refused edit is fine; the dtype claim is about what exists)
             hist[-1]["raised"] = type(e).__name__
         check(cur, op)
+        # the object the new one was derived from still declares what IT stores (dtype objects are not shared mutably)
+        check(prev, f"source_after_{op}")
+        check(ser, "original_after_history")
